@@ -51,6 +51,8 @@ func suiteC18(cfg Config, res *Result) {
 	defer filterTagRecursion(res, "filter", "c18-filter-tag-recursion")
 	defer evalTrace(res, "filter", "c18-evaluation-order")
 	defer c18Truncatewords(res)
+	defer filtersSeeCurrentText(res, "filter", "c18-filter-aliases-input")
+	defer recursiveMacroNodes(res, "filter", "c18-recursive-filter-tag", "filter")
 	defer filterTagIsChain(res, "filter", "c18-filter-tag-is-chain")
 	defer c18NilParam(res)
 	res.Rule = "per filter, exhaustive integer windows: slice bounds -8..8 (and missing) squared over strings/lists/arrays of length 0..6 incl. multi-byte; widths -3..20 over strings of length 0..12 for center/ljust/rjust/truncatechars/truncatewords/wordwrap; numeric tables for add/divisibleby/get_digit/floatformat/pluralize/yesno/default*/integer/float; sequence ops first/last/length/length_is/join/split/make_list/cut/wordcount/linenumbers/linebreaksbr/capfirst/upper/lower; widthratio over a cube of small integers (both signs) through the template; each compared with the Lean model and, where stated, an independent Go reference (Python slicing, padding shape, floating-point round of the ratio); non-trivial = argument outside the trivial range or multi-byte input; distinct by (filter, value, parameter)"
